@@ -28,7 +28,9 @@ def _alarm(_sig, _frm):
 signal.signal(signal.SIGALRM, _alarm)
 
 
-def with_timeout(seconds: float, fn, *args):
+def with_timeout(seconds, fn, *args):
+    if seconds is None:          # no timer (calls made from threads)
+        return fn(*args)
     signal.setitimer(signal.ITIMER_REAL, seconds)
     try:
         return fn(*args)
@@ -85,7 +87,7 @@ class Built:
         except Timeout:
             # a stalled worker process must not look like a hang of the parser: try once
             # more with a much longer limit before calling it a timeout
-            if timeout < 15.0:
+            if timeout is not None and timeout < 15.0:
                 return self.run(mode, rule, text, k, timeout=20.0)
             return ("EXC", "Timeout")
         except RecursionError:
